@@ -4783,6 +4783,17 @@ int main(int argc, char** argv) {
             auto finalize_fetch = [&](const ephemeralnet::daemon::ControlResponse& response) {
                 const auto reported_size = response.fields.contains("SIZE") ? response.fields.at("SIZE") : "0";
                 if (response.has_payload) {
+                    if (decoded_manifest.has_value()) {
+                        // Whoever served these bytes (remote control endpoint, fallback or the local daemon), they are only
+                        // the requested content if they hash to the manifest's content hash.
+                        const auto digest = ephemeralnet::crypto::Sha256::digest(
+                            std::span<const std::uint8_t>(response.payload.data(), response.payload.size()));
+                        if (digest != decoded_manifest->chunk_hash) {
+                            throw_cli_error("E_FETCH_HASH_MISMATCH",
+                                            "Received data does not match the manifest's content hash",
+                                            "The serving endpoint returned different bytes; retry via another provider");
+                        }
+                    }
                     try {
                         std::ofstream out(resolved_output, std::ios::binary | std::ios::trunc);
                         if (!out) {
